@@ -88,14 +88,41 @@ Proof.
   - cbn [set_none live flat_map]. fold (live hs) (live (set_none hs h)). rewrite !cnt_app, (IH h v x H). lia.
 Qed.
 
+Lemma live_set_handle : forall hs h v o x, nth_error hs h = Some (Some v) ->
+  cnt x (live hs) + cnt x (match o with Some w => refs w | None => [] end) =
+  cnt x (live (set_handle hs h o)) + cnt x (refs v).
+Proof.
+  induction hs as [|a hs IH]; intros [|h] v o x H; cbn in H; try discriminate.
+  - inversion H; subst. cbn [set_handle live flat_map]. fold (live hs). rewrite !cnt_app. lia.
+  - cbn [set_handle live flat_map]. fold (live hs) (live (set_handle hs h o)). rewrite !cnt_app.
+    pose proof (IH h v o x H). lia.
+Qed.
+
 (* invariant: no "not found" error so far, and the dictionary holds its initial references plus exactly one reference per
    string owned by a value that is still alive *)
 Definition OInv (d0 : dict) (s : ost) : Prop :=
   o_err s = 0 /\ forall x, o_dict s x = d0 x + cnt x (live (o_h s)).
 
+(* the switch of values of an update: the new value is already stored (d1), the old one is released *)
+Lemma replace_inv d0 s h v v' d1 : o_err s = 0 -> nth_error (o_h s) h = Some (Some v) ->
+  (forall x, d1 x = d0 x + cnt x (live (o_h s)) + cnt x (refs v')) ->
+  OInv d0 (replace_value s h v v' d1) /\
+  (forall x, o_dict (replace_value s h v v' d1) x + cnt x (refs v) = d1 x) /\
+  o_h (replace_value s h v v' d1) = set_handle (o_h s) h (Some v').
+Proof.
+  intros He E H1. unfold replace_value. cbv zeta.
+  destruct (rel_all_ok (refs v) d1 (o_err s)) as [G1 G2].
+  { intro x. rewrite H1. pose proof (live_set_handle _ _ _ (Some v') x E). lia. }
+  unfold OInv. cbn [o_err o_dict o_h]. split; [split|split; [exact G2|reflexivity]].
+  - transitivity (o_err s); [exact G1|exact He].
+  - intro x. specialize (G2 x). rewrite H1 in G2. pose proof (live_set_handle _ _ _ (Some v') x E) as Hl.
+    apply (proj1 (N.add_cancel_r _ _ (cnt x (refs v)))).
+    transitivity (d0 x + cnt x (live (o_h s)) + cnt x (refs v')); [exact G2|]. cbn [live] in Hl. lia.
+Qed.
+
 Lemma ostep_inv d0 s o : OInv d0 s -> OInv d0 (ostep s o).
 Proof.
-  intros [He Hd]. destruct o as [v|h|h|v]; cbn [ostep].
+  intros [He Hd]. destruct o as [v|h|h|v|h v'|h t v']; cbn [ostep].
   - split; [exact He|]. intro x. cbn [o_dict o_h]. rewrite acq_all_cnt, live_app, cnt_app, Hd. cbn [live flat_map].
     rewrite app_nil_r. lia.
   - destruct (nth_error (o_h s) h) as [[v|]|] eqn:E; try (split; assumption).
@@ -109,7 +136,27 @@ Proof.
   - destruct (rel_all_ok (refs v) (acq_all (o_dict s) (refs v)) (o_err s)) as [H1 H2].
     { intro x. rewrite acq_all_cnt. lia. }
     cbv zeta. unfold OInv. cbn [o_err o_dict o_h]. split; [transitivity (o_err s); [exact H1|exact He]|]. intro x. specialize (H2 x). rewrite acq_all_cnt, Hd in H2. exact (proj1 (N.add_cancel_r _ _ _) H2).
+  - destruct (nth_error (o_h s) h) as [[v|]|] eqn:E; try (split; assumption).
+    destruct (refs_eqb (refs v) (refs v')).
+    + destruct (rel_all_ok (refs v') (acq_all (o_dict s) (refs v')) (o_err s)) as [H1 H2].
+      { intro x. rewrite acq_all_cnt. lia. }
+      cbv zeta. unfold OInv. cbn [o_err o_dict o_h]. split; [transitivity (o_err s); [exact H1|exact He]|]. intro x.
+      specialize (H2 x). rewrite acq_all_cnt, Hd in H2. exact (proj1 (N.add_cancel_r _ _ _) H2).
+    + apply (replace_inv d0 s h v v' _ He E). intro x. now rewrite acq_all_cnt, Hd.
+  - destruct (nth_error (o_h s) h) as [[v|]|] eqn:E; try (split; assumption).
+    destruct (rel_all_ok (refs t) (acq_all (o_dict s) (refs t)) (o_err s)) as [H1 H2].
+    { intro x. rewrite acq_all_cnt. lia. }
+    cbv zeta.
+    apply (replace_inv d0 (mkost (fst (rel_all (acq_all (o_dict s) (refs t), o_err s) (refs t)))
+                                 (snd (rel_all (acq_all (o_dict s) (refs t), o_err s) (refs t))) (o_mis s) (o_h s)) h v v').
+    + cbn [o_err]. transitivity (o_err s); [exact H1|exact He].
+    + exact E.
+    + intro x. cbn [o_h]. rewrite acq_all_cnt. specialize (H2 x). rewrite acq_all_cnt, Hd in H2.
+      apply (proj1 (N.add_cancel_r _ _ _)) in H2.
+      exact (f_equal (fun z => z + cnt x (refs v')) H2).
 Qed.
+
+Lemma orun_inv_placeholder : True. Proof. exact I. Qed.
 
 Lemma orun_inv d0 : forall ops s, OInv d0 s -> OInv d0 (orun s ops).
 Proof.
@@ -242,6 +289,14 @@ Proof.
   destruct o as [v|]; [eauto|congruence].
 Qed.
 
+Lemma set_handle_length {A} : forall (l : list (option A)) n x, length (set_handle l n x) = length l.
+Proof. induction l as [|y l IH]; intros [|n] x; cbn; auto. Qed.
+
+Lemma all_some_set_handle : forall hs n (w : value), all_some hs -> all_some (set_handle hs n (Some w)).
+Proof.
+  unfold all_some. induction hs as [|o hs IH]; intros [|n] w H; cbn; auto; inversion H; subst; constructor; auto. discriminate.
+Qed.
+
 Lemma script_run : forall ks i s, all_some (o_h s) ->
   all_some (o_h (orun s (script_ops ks i (length (o_h s))))) /\
   o_mis (orun s (script_ops ks i (length (o_h s)))) = o_mis s.
@@ -262,11 +317,25 @@ Proof.
   { destruct (Hstore (cmd_value i)) as (H1 & H2 & H3). rewrite orun_cons.
     try rewrite El in H3. rewrite <- H3. destruct (IH (i + 1) _ H1) as [G1 G2]. split; [exact G1|]. now rewrite G2. }
   destruct (all_some_nth (o_h s) p Ha ltac:(lia)) as (v & Ev).
-  assert (Hd : all_some (o_h (ostep s (ODup p))) /\ o_mis (ostep s (ODup p)) = o_mis s /\
-               length (o_h (ostep s (ODup p))) = S (S p)).
-  { cbn [ostep]. rewrite Ev. cbn [o_h o_mis]. split; [|split; [reflexivity|rewrite app_length, El; cbn; lia]].
-    apply Forall_app. split; [exact Ha|]. constructor; [discriminate|constructor]. }
-  destruct Hd as (H1 & H2 & H3). rewrite orun_cons.
+  destruct (k =? 2).
+  { assert (Hd : all_some (o_h (ostep s (ODup p))) /\ o_mis (ostep s (ODup p)) = o_mis s /\
+                 length (o_h (ostep s (ODup p))) = S (S p)).
+    { cbn [ostep]. rewrite Ev. cbn [o_h o_mis]. split; [|split; [reflexivity|rewrite app_length, El; cbn; lia]].
+      apply Forall_app. split; [exact Ha|]. constructor; [discriminate|constructor]. }
+    destruct Hd as (H1 & H2 & H3). rewrite orun_cons.
+    rewrite <- H3. destruct (IH (i + 1) _ H1) as [G1 G2]. split; [exact G1|]. now rewrite G2. }
+  assert (Hsh : forall o, (exists w, o = OUpdate p w) \/ (exists t w, o = OResolve p t w) ->
+            all_some (o_h (ostep s o)) /\ o_mis (ostep s o) = o_mis s /\ length (o_h (ostep s o)) = S p).
+  { intros o [(w & ->)|(t & w & ->)]; cbn [ostep]; rewrite Ev.
+    - destruct (refs_eqb (refs v) (refs w)); cbv zeta; unfold replace_value; cbv zeta; cbn [o_h o_mis].
+      + auto.
+      + split; [apply all_some_set_handle; exact Ha|]. split; [reflexivity|]. now rewrite set_handle_length.
+    - cbv zeta. unfold replace_value. cbv zeta. cbn [o_h o_mis].
+      split; [apply all_some_set_handle; exact Ha|]. split; [reflexivity|]. now rewrite set_handle_length. }
+  destruct (k =? 3).
+  { destruct (Hsh (OUpdate p (cmd_value i)) ltac:(left; eauto)) as (H1 & H2 & H3). rewrite orun_cons.
+    rewrite <- H3. destruct (IH (i + 1) _ H1) as [G1 G2]. split; [exact G1|]. now rewrite G2. }
+  destruct (Hsh (OResolve p (Val [[i]] []) (cmd_value i)) ltac:(right; eauto)) as (H1 & H2 & H3). rewrite orun_cons.
   rewrite <- H3. destruct (IH (i + 1) _ H1) as [G1 G2]. split; [exact G1|]. now rewrite G2.
 Qed.
 
@@ -320,3 +389,62 @@ Proof.
   { rewrite Hh, skipn_all, app_nil_r. apply Forall_forall. intros o Ho. now apply repeat_spec in Ho. }
   rewrite (sum_counts_zero _ _ (Hf Hall)), He, Hm2, Hm. reflexivity.
 Qed.
+
+(* ---- update-style operations and the re-resolution of union values ---- *)
+(* an update with an equal value changes nothing (its temporary is freed); with another value the handle holds the new value,
+   the old value's references are released and the new one's are taken *)
+Theorem own_update_exact d0 s h v v' : OInv d0 s -> nth_error (o_h s) h = Some (Some v) ->
+  OInv d0 (ostep s (OUpdate h v')) /\
+  (refs_eqb (refs v) (refs v') = true ->
+     o_h (ostep s (OUpdate h v')) = o_h s /\ forall x, o_dict (ostep s (OUpdate h v')) x = o_dict s x) /\
+  (refs_eqb (refs v) (refs v') = false ->
+     o_h (ostep s (OUpdate h v')) = set_handle (o_h s) h (Some v') /\
+     forall x, o_dict (ostep s (OUpdate h v')) x + cnt x (refs v) = o_dict s x + cnt x (refs v')).
+Proof.
+  intros HI E. split; [now apply ostep_inv|]. destruct HI as [He Hd]. cbn [ostep]. rewrite E.
+  destruct (refs_eqb (refs v) (refs v')) eqn:Eq; (split; [intros Hq|intros Hq]); try discriminate.
+  - cbv zeta. cbn [o_h o_dict]. split; [reflexivity|]. intro x.
+    destruct (rel_all_ok (refs v') (acq_all (o_dict s) (refs v')) (o_err s)) as [_ H2].
+    { intro y. rewrite acq_all_cnt. lia. }
+    specialize (H2 x). rewrite acq_all_cnt in H2. exact (proj1 (N.add_cancel_r _ _ _) H2).
+  - destruct (replace_inv d0 s h v v' (acq_all (o_dict s) (refs v')) He E) as (_ & G2 & G3).
+    { intro x. now rewrite acq_all_cnt, Hd. }
+    split; [exact G3|]. intro x. rewrite (G2 x). apply acq_all_cnt.
+Qed.
+
+(* re-resolution: the temporary of the recorded member leaves nothing behind, the value is switched as by an update *)
+Theorem own_resolve_exact d0 s h v t v' : OInv d0 s -> nth_error (o_h s) h = Some (Some v) ->
+  OInv d0 (ostep s (OResolve h t v')) /\
+  o_h (ostep s (OResolve h t v')) = set_handle (o_h s) h (Some v') /\
+  forall x, o_dict (ostep s (OResolve h t v')) x + cnt x (refs v) = o_dict s x + cnt x (refs v').
+Proof.
+  intros HI E. split; [now apply ostep_inv|]. destruct HI as [He Hd]. cbn [ostep]. rewrite E. cbv zeta.
+  destruct (rel_all_ok (refs t) (acq_all (o_dict s) (refs t)) (o_err s)) as [H1 H2].
+  { intro x. rewrite acq_all_cnt. lia. }
+  assert (Hf : forall x, fst (rel_all (acq_all (o_dict s) (refs t), o_err s) (refs t)) x = o_dict s x).
+  { intro x. specialize (H2 x). rewrite acq_all_cnt in H2. exact (proj1 (N.add_cancel_r _ _ _) H2). }
+  destruct (replace_inv d0 (mkost (fst (rel_all (acq_all (o_dict s) (refs t), o_err s) (refs t)))
+                                  (snd (rel_all (acq_all (o_dict s) (refs t), o_err s) (refs t))) (o_mis s) (o_h s)) h v v'
+              (acq_all (fst (rel_all (acq_all (o_dict s) (refs t), o_err s) (refs t))) (refs v'))) as (_ & G2 & G3).
+  - cbn [o_err]. transitivity (o_err s); [exact H1|exact He].
+  - exact E.
+  - intro x. cbn [o_h]. rewrite acq_all_cnt. exact (f_equal (fun z => z + cnt x (refs v')) (eq_trans (Hf x) (Hd x))).
+  - split; [exact G3|]. intro x. rewrite (G2 x), acq_all_cnt. exact (f_equal (fun z => z + cnt x (refs v')) (Hf x)).
+Qed.
+
+(* C17-6 class: an update with an EQUAL value that forgets its temporary: after the value is freed the dictionary still holds
+   the temporary's references; the correct operation leaves nothing *)
+Example own_update_same_leaked_refuted :
+  let s1 := ostep (mkost ex_d0 0 0 []) (OStore ex_zone) in
+  o_dict (ostep (ostep_update_same_leaked s1 0 ex_zone) (OFree 0)) [101; 116; 104; 48] = 1 /\
+  o_dict (ostep (ostep s1 (OUpdate 0 ex_zone)) (OFree 0)) [101; 116; 104; 48] = 0.
+Proof. cbv zeta. split; vm_compute; reflexivity. Qed.
+
+(* C17-8 class: the temporary of the recorded union member is freed only when its text was not printed into a new buffer *)
+Example own_resolve_leaked_refuted :
+  let s1 := ostep (mkost ex_d0 0 0 []) (OStore (Val [[117]] [])) in
+  let t := Val [[97; 58; 105; 100; 49]] [] in
+  o_dict (ostep (ostep_resolve_leaked s1 0 t (Val [[115]] []) true) (OFree 0)) [97; 58; 105; 100; 49] = 1 /\
+  o_dict (ostep (ostep_resolve_leaked s1 0 t (Val [[115]] []) false) (OFree 0)) [97; 58; 105; 100; 49] = 0 /\
+  o_dict (ostep (ostep s1 (OResolve 0 t (Val [[115]] []))) (OFree 0)) [97; 58; 105; 100; 49] = 0.
+Proof. cbv zeta. repeat split; vm_compute; reflexivity. Qed.
